@@ -6,6 +6,7 @@ import (
 	"encoding/hex"
 	"fmt"
 	"math/rand"
+	"path/filepath"
 
 	"github.com/akrylysov/pogreb"
 
@@ -331,6 +332,10 @@ type Exec struct {
 	// IdleCycles makes every clean restart do an additional Open+Close without writes and compare the
 	// segment files before and after.
 	IdleCycles bool
+	// AltSpelling makes every clean restart on Mem/CrashFS address the directory by another equivalent path spelling.
+	AltSpelling bool
+	baseDir     string
+	spell       int
 }
 
 // segmentFiles returns name -> bytes for the segment files of the database directory.
@@ -485,6 +490,28 @@ func (x *Exec) Do(op Op) (sig, detail string) {
 			}
 			if x.C != nil {
 				x.C.Stat("fs_switches", 1)
+			}
+		}
+		if x.AltSpelling && (x.Env.Kind == FSMem || x.Env.Kind == FSCrash) {
+			// the same directory under another, equivalent spelling of its path
+			if x.baseDir == "" {
+				x.baseDir = x.Env.Dir
+			}
+			x.spell++
+			d := x.baseDir
+			switch x.spell % 4 {
+			case 1:
+				d = "./" + d
+			case 2:
+				d = d + "/"
+			case 3:
+				d = filepath.Dir(d) + "/sub/../" + filepath.Base(d)
+			}
+			e := *x.Env
+			e.Dir = d
+			x.Env = &e
+			if x.C != nil {
+				x.C.Stat("path_spellings", 1)
 			}
 		}
 		rec := Recoveries()
